@@ -40,7 +40,7 @@ fn inits(n: usize, all: bool) -> Vec<(String, InitKind)> {
 }
 
 fn models(tier: Tier) -> Vec<(String, Arc<StreamModel>, Vec<Plan>)> {
-    let or = Oracles { c01: true, c03: true, c04: false, c10: false };
+    let or = Oracles { c01: true, c03: true, c04: false, c10: false, c05: false };
     let mut out = Vec::new();
     let mk = |name: &str, n: usize, reduced: bool, all: bool| {
         Arc::new(StreamModel {
